@@ -304,4 +304,8 @@ def annotate_fn(fn_text, spec="", attrs="", loops=None, body_start="", rname="r"
         body = body[:start] + before + new + body[brace + 1:]
     if body_start:
         body = "{\n" + body_start + body[1:]
+    if spec.strip():
+        # vacuity probe site: the engine re-runs every unit with `assert(false)` here and expects it to FAIL
+        # (if it were provable, the precondition would be contradictory and every postcondition vacuous)
+        body = "{ /*VACUITY_PROBE*/" + body[1:]
     return (attrs + "\n" if attrs else "") + header + spec + "\n" + body
